@@ -68,11 +68,19 @@ class _Rename(ast.NodeTransformer):
         return node
 
 
-def _match(pattern, code):
+def _match(pattern, code, pre_search=False):
     r = Report()
     contextualize_report(code, report=r)
     tree = ast.parse(code)
     root = CaitNode(tree, report=r)
+    if pre_search:
+        # an earlier, unrelated search on the SAME parsed program (what instructors do all the time): sub-searches whose
+        # subject is a statement inside a body, and a whole-program search
+        for kind in ("Expr", "Assign", "Return"):
+            for node in root.find_all(kind):
+                node.find_matches("___(___)")
+                node.find_matches("___ = ___")
+        StretchyTreeMatcher("___", report=r).find_matches(root)
     return StretchyTreeMatcher(pattern, report=r).find_matches(root), tree
 
 
@@ -80,7 +88,8 @@ def derive(a0: bool, a1: bool, b0: bool, b1: bool, c0: bool, c1: bool, k0: bool,
            p0: bool, p1: bool, p2: bool, p3: bool) -> bool:
     """
     Partition "t,d[,q]": student program = template t filled with identifiers from {a, b, ab} and constants from
-    {0, 1, 2, 's'} (trailing q: constants from {0, 1} only); derivation kind d in {0 whole, 1 one statement, 2 ___ for a
+    {0, 1, 2, 's'} (trailing q: constants from {0, 1} only; trailing s: other searches ran on the same parsed program
+    before); derivation kind d in {0 whole, 1 one statement, 2 ___ for a
     sub-expression, 3 __e__ for a sub-expression, 4 _v_ for an identifier, 5 drop a statement, 6 _v_ and ___ together,
     7/8 drop a statement + _v_ + ___ for every constant (+ ___ for another name)};
     position p symbolic. The derived pattern must match, and some match must bind the
@@ -93,8 +102,9 @@ def derive(a0: bool, a1: bool, b0: bool, b1: bool, c0: bool, c1: bool, k0: bool,
         return True
     parts = (PART or "0,4").split(",")
     t, d = int(parts[0]), int(parts[1])
-    if len(parts) > 2 and (k1 or q1):
+    if "q" in parts[2:] and (k1 or q1):
         return True
+    pre_search = "s" in parts[2:]
     i1, i2, i3 = bits(a0, a1), bits(b0, b1), bits(c0, c1)
     if i1 >= 3 or i2 >= 3 or i3 >= 3:
         return True
@@ -104,10 +114,10 @@ def derive(a0: bool, a1: bool, b0: bool, b1: bool, c0: bool, c1: bool, k0: bool,
     if excluded("C11.derive", t=t, n1=n1, n2=n2, n3=n3, c1=c1, c2=c2, d=d, p=p):
         return True
     with NoTracing():       # everything below is concrete (menu values): run the real matcher at native speed
-        return _derive_concrete(t, n1, n2, n3, c1, c2, d, p)
+        return _derive_concrete(t, n1, n2, n3, c1, c2, d, p, pre_search)
 
 
-def _derive_concrete(t, n1, n2, n3, c1, c2, d, p):
+def _derive_concrete(t, n1, n2, n3, c1, c2, d, p, pre_search=False):
     code = TEMPLATES[t].format(n1=n1, n2=n2, n3=n3, c1=c1, c2=c2)
     pat_tree = ast.parse(code)
     want_var, want_expr = None, None
@@ -173,7 +183,7 @@ def _derive_concrete(t, n1, n2, n3, c1, c2, d, p):
             pat_tree = _Replace(k, "___").visit(pat_tree)
     ast.fix_missing_locations(pat_tree)
     pattern = ast.unparse(pat_tree)
-    matches, tree = _match(pattern, code)
+    matches, tree = _match(pattern, code, pre_search)
     if not matches:
         return False
     if want_var is not None:
@@ -200,6 +210,58 @@ def _derive_concrete(t, n1, n2, n3, c1, c2, d, p):
         if not ok:
             return False
     return True
+
+
+TEXT_PROGRAMS = [
+    "total = 0\nfor x in xs:\n    total = total + x\nprint(total)\n",
+    "def f(a):\n    \"\"\"Adds.\n    \n    Twice.\"\"\"\n    return a + a\nprint(f(1))\n",
+    "text = \'\'\'first\n  \nlast\'\'\'\nprint(text)\n",
+    "if x:\n    y = (1 +\n         2)\nelse:\n    y = 0\n",
+    "values = [\n    1,\n    2,\n]\nprint(values)  # show\n",
+    "\tif_tab = 1\n".lstrip("\t") + "while if_tab:\n\tif_tab = 0\n",
+    "msg = 'a' 'b'\nprint(msg)\n",
+    "x = 1; y = 2\nprint(x, y)\n",
+]
+
+
+def derive_text(k0: bool, k1: bool, k2: bool, p0: bool, p1: bool, p2: bool, twice: bool) -> bool:
+    """
+    Patterns cut from the program TEXT (not re-rendered): the whole file, or the source segment of one of its statements,
+    handed to the public pedal.cait.find_matches(pattern) on a report holding that program - programs with multi-line
+    strings containing whitespace-only lines, docstrings, continuation lines, comments, tabs, implicit string
+    concatenation, `;`. At least one match each time (`twice`: asked a second time on the same report).
+
+    pre: True
+    post: _
+    """
+    if tick():
+        return True
+    code = TEXT_PROGRAMS[bits(k0, k1, k2)]
+    p = bits(p0, p1, p2)
+    twice = True if twice else False
+    with NoTracing():
+        from pedal.cait.cait_api import find_matches
+        tree = ast.parse(code)
+        stmts = [n for n in ast.walk(tree) if isinstance(n, ast.stmt)]
+        if p == 0:
+            pattern = code
+        else:
+            pattern = ast.get_source_segment(code, stmts[(p - 1) % len(stmts)])
+            if pattern is None:
+                return True
+            import textwrap
+            if pattern != textwrap.dedent(pattern) and "\n" in pattern:
+                return True          # a nested compound statement's segment is not a program by itself
+        try:
+            ast.parse(pattern)
+        except SyntaxError:
+            return True
+        r = Report()
+        contextualize_report(code, report=r)
+        for i in range(2 if twice else 1):
+            if not find_matches(pattern, report=r):
+                return False
+        return True
 
 
 def derive_reach(a0: bool, a1: bool, b0: bool, b1: bool) -> bool:
